@@ -316,6 +316,10 @@ def run_scenario(sc, strategy, line_level=False, max_steps=6000):
                 peer.p2c.append(f'changed {ident} [{gid}, {{"t": 1}}]')
                 s.log(ev='peer_send', kind='changed', ident=ident, gid=gid)
             elif sc.get('xreply'):     # an experimental request answered by an experimental (unknown, non-error) reply
+                if sc.get('errupd_before_reply'):
+                    # the node announces an error state of a parameter first (an asynchronous message)
+                    peer.p2c.append('error_update m:value ["HardwareError", "sensor broken", {"t": 1}]')
+                    peer.p2c.append('error_update m:p2 ["HardwareError", "sensor broken", {"t": 1}]')
                 peer.p2c.append(f'x{action} {ident} [{gid}, {{}}]')
                 s.log(ev='peer_send', kind='xreply', ident=ident, gid=gid)
             else:
